@@ -32,7 +32,12 @@ RetxIn == RetxDelay * ((retx * (retx + 1)) \div 2) - sinceFirst
 
 TimerKinds == {"dpd", "rekeyike", "delike"}
 \* kinds whose answer simply completes the exchange (the others continue with a follow-up request: not modelled here)
-Answerable == {"dpd", "newchild", "delchild", "delike"}
+Answerable == {"dpd", "newchild", "delchild", "delike", "delold", "deloldchild"}
+\* kinds whose answer makes the requester send a follow-up request AT ONCE: a rekey is followed by the DELETE of what was replaced ("delold": the old IKE_SA
+\* deletes itself - its CHILD_SAs now belong to the successor; "deloldchild": the replaced CHILD_SA).  The follow-up is a request like any other: retransmitted
+\* on the same schedule, and when its budget is spent the IKE_SA that sent it is closed.
+FollowUp(k) == IF k \in {"rekeyike", "rekeyike_ke"} THEN "delold" ELSE "deloldchild"
+WithFollowUp == {"rekeyike", "rekeyike_ke", "rekchild"}
 HalfOpenKinds == {"init", "init_cookie", "init_ke", "auth"}
 
 Init ==
@@ -57,7 +62,7 @@ Sweep ==
   /\ swept' = TRUE
   /\ IF st = "WAITING" /\ RetxIn < 0 THEN
         IF retx >= MaxRetx
-        THEN /\ st' = "DELETED" /\ kern' = FALSE                                   \* budget spent: closed, all kernel SAs removed
+        THEN /\ st' = "DELETED" /\ kern' = (kind = "delold" /\ kern)               \* budget spent: closed, all kernel SAs it still owns removed
              /\ UNCHANGED <<kind, retx, sinceFirst, sinceSend, gaps, wire>>
              /\ last' = [a |-> "Sweep", sent |-> 0, what |-> "giveup"]
         ELSE /\ retx' = retx + 1 /\ gaps' = Append(gaps, sinceSend) /\ sinceSend' = 0 /\ wire' = wire + 1     \* the same datagram again
@@ -82,10 +87,19 @@ Tick(dt) ==
 Answer ==
   /\ wire > 0 /\ ~crashed /\ st = "WAITING" /\ kind \in Answerable
   /\ wire' = 0 /\ dpdIn' = Dpd
-  /\ st' = IF kind = "delike" THEN "DELETED" ELSE "ESTABLISHED"
-  /\ kern' = IF kind \in {"delike", "delchild"} THEN FALSE ELSE kern        \* the only CHILD_SA / the whole IKE_SA is gone
+  /\ st' = IF kind \in {"delike", "delold"} THEN "DELETED" ELSE "ESTABLISHED"
+  /\ kern' = IF kind \in {"delike", "delchild"} THEN FALSE ELSE kern        \* the only CHILD_SA / the whole IKE_SA is gone ("delold": the successor has them)
   /\ UNCHANGED <<kind, retx, sinceFirst, sinceSend, gaps, rekeyIn, deleteIn, crashed, sinceCrash, lost, swept, busy, probes, noise>>
   /\ last' = [a |-> "Answer"]
+
+\* the peer answers a rekey: the follow-up DELETE goes out at once, as a NEW request (fresh schedule, fresh budget)
+AnswerFollowUp ==
+  /\ wire > 0 /\ ~crashed /\ st = "WAITING" /\ kind \in WithFollowUp
+  /\ (kind \in {"rekeyike", "rekeyike_ke"} => busy = 0)       \* (the busy peer of AnswerBusy stays busy: it goes on refusing the IKE_SA rekey)
+  /\ dpdIn' = Dpd
+  /\ st' = "WAITING" /\ kind' = FollowUp(kind) /\ retx' = 1 /\ sinceFirst' = 0 /\ sinceSend' = 0 /\ gaps' = <<>> /\ wire' = 1
+  /\ UNCHANGED <<rekeyIn, deleteIn, kern, crashed, sinceCrash, lost, swept, busy, probes, noise>>
+  /\ last' = [a |-> "AnswerFollowUp"]
 
 \* the peer is busy with an exchange of its own and refuses our IKE_SA rekey with TEMPORARY_FAILURE (RFC 7296 2.25): the exchange is over, the rekey is
 \* tried again shortly (0..2 s, the driver chooses 0) - and the hard limit of the lifetime does NOT move, however often this happens
@@ -98,7 +112,7 @@ AnswerBusy ==
 \* the peer sends a request of its own (a liveness probe) - also while we wait for an answer that got lost on the way to it.  Authentic reception
 \* restarts OUR liveness timer; it is no answer to our request: the retransmission schedule and its budget go on unchanged
 PeerProbe ==
-  /\ ~crashed /\ busy = 0 /\ probes < MaxProbes /\ kern /\ st \in {"WAITING", "ESTABLISHED"} /\ kind \notin HalfOpenKinds
+  /\ ~crashed /\ busy = 0 /\ probes < MaxProbes /\ kern /\ st \in {"WAITING", "ESTABLISHED"} /\ kind \notin HalfOpenKinds \cup {"delold"}
   /\ dpdIn' = Dpd /\ probes' = probes + 1
   /\ UNCHANGED <<st, kind, retx, sinceFirst, sinceSend, gaps, rekeyIn, deleteIn, kern, wire, crashed, sinceCrash, lost, swept, busy, noise>>
   /\ last' = [a |-> "PeerProbe"]
@@ -123,7 +137,7 @@ Crash ==
   /\ UNCHANGED <<st, kind, retx, sinceFirst, sinceSend, gaps, dpdIn, rekeyIn, deleteIn, kern, lost, swept, busy, probes, noise>>
   /\ last' = [a |-> "Crash"]
 
-Next == Sweep \/ (\E dt \in Ticks : Tick(dt)) \/ Answer \/ AnswerBusy \/ PeerProbe \/ Noise \/ Lose \/ Crash
+Next == Sweep \/ (\E dt \in Ticks : Tick(dt)) \/ Answer \/ AnswerFollowUp \/ AnswerBusy \/ PeerProbe \/ Noise \/ Lose \/ Crash
 Spec == Init /\ [][Next]_vars
 
 -----------------------------------------------------------------------------------------------------
@@ -140,8 +154,9 @@ NoRetxAfterAnswer == [][(last'.a = "Sweep" /\ last'.what = "retransmit") => st =
 TimersFire == [][(last'.a = "Sweep" /\ st = "ESTABLISHED" /\ (dpdIn < 0 \/ rekeyIn < 0 \/ deleteIn < 0)) => last'.sent = 1]_vars
 \* if the peer dies at any moment, every kernel SA is gone within DPD interval + retransmission budget (fine sweeps)
 RetxSum == RetxDelay * ((MaxRetx * (MaxRetx + 1)) \div 2)
-CrashBound == (crashed /\ sinceCrash > Dpd + RetxSum + MaxRetx + 3) => ~kern
-Deleted == st = "DELETED" => ~kern
+\* (an IKE_SA that was rekeyed owns no CHILD_SA any more: the successor - with timers of its own, not modelled here - holds them)
+CrashBound == (crashed /\ sinceCrash > Dpd + RetxSum + MaxRetx + 3 /\ kind # "delold") => ~kern
+Deleted == (st = "DELETED" /\ kind # "delold") => ~kern
 \* the hard limit of the lifetime only ever comes closer: no answer of the peer postpones it
 HardLimitFixed == [][st' # "DELETED" => deleteIn' <= deleteIn]_vars
 
